@@ -8,7 +8,9 @@ C02 — Rendering never panics and never writes outside the viewport.
                               viewport matrix for a rectangle inside the buffer
   `Retro.Props.C02.Confined`: `render_viewport_confined` — every pixel outside the viewport rectangle keeps
                               its colour and depth (per-pixel semantics of the draw loop from C06)
+  `Retro.Props.C02.ConfinedColor`: the same for colour-only targets (`drawTris_pixC`, `render_color_target`)
 -/
 import Retro.Props.C02.Links
 import Retro.Props.C02.NoPanic
 import Retro.Props.C02.Confined
+import Retro.Props.C02.ConfinedColor
